@@ -488,6 +488,25 @@ func c11Run(u *vfUnit) {
 		for i := 0; i < en.k && i < len(script) && !x.broken; i++ {
 			x.step(script[i])
 		}
+		// a host object outside the served tree on which open succeeds and a later fchmod would fail (procfs), opened with
+		// CREAT and a permissions attribute: whatever the server answers, no descriptor on it may survive Serve
+		hostObj := fmt.Sprintf("/proc/%d/status", os.Getpid())
+		hostBefore := 0
+		if e.kind == vfOS {
+			hostBefore = len(vfFDsUnder(hostObj))
+			if !x.broken {
+				if rr, ok := x.req(vfPkt{Type: rfOpen, Path: "/proc/self/status", Pflags: rfRead_ | rfCreat_, Attrs: vfAttrs{Flags: 0x4, Perm: 0o600}}); ok {
+					u.Count("host_object_opens_with_permissions", 1)
+					if rr.Type == rfHandle {
+						if x.seen[rr.Handle] {
+							u.Violation("handle-reused:"+e.kind.String(), fmt.Sprintf("%s: handle %q issued twice in one session (second time for the host object)", label, rr.Handle), map[string]any{"handle": rr.Handle})
+						}
+						x.seen[rr.Handle] = true
+						x.hs = append(x.hs, &c11Handle{s: rr.Handle, open: true, path: "/proc/self/status"})
+					}
+				}
+			}
+		}
 		u.Count("sessions_run", 1)
 		openAtEnd := 0
 		for _, h := range x.hs {
@@ -609,9 +628,12 @@ func c11Run(u *vfUnit) {
 		}
 		if e.kind == vfOS {
 			fds := vfFDsUnder(e.dir)
+			if hfds := vfFDsUnder(hostObj); len(hfds) > hostBefore {
+				fds = append(fds, hfds[hostBefore:]...)
+			}
 			rtdebug.SetGCPercent(100)
 			if len(fds) > 0 {
-				u.Violation("fd-leak:Server:"+en.how, fmt.Sprintf("%s: %d file(s) of the served tree still open after Serve returned: %v", label, len(fds), fds[:min(len(fds), 5)]), w)
+				u.Violation("fd-leak:Server:"+en.how, fmt.Sprintf("%s: %d file(s) opened by the server still open after Serve returned: %v", label, len(fds), fds[:min(len(fds), 5)]), w)
 			}
 			u.Count("objects_judged", int64(len(x.hs)))
 		} else {
